@@ -35,6 +35,9 @@ HAND_PAIRS = [
     ('<div>k</div><span>w <iframe src="/f"></iframe> v</span><p>q</p><p>r</p>', '<div>k</div><p>r</p>'),
     ('<p>one</p><hr><p>two</p>', '<p>one</p><p>new</p><hr><p>two three</p>'),
     ('<ul><li style="display: inline;">Home</li></ul><p>x</p>', '<ul><li style="display: inline;">Home</li><li style="display: inline;">News</li></ul><section style="display:inline"><p>new block</p></section><p>x</p>'),
+    ('<p>intro</p><p>outro</p>', '<p>intro</p><video controls><source src="m.mp4"><p>Your browser cannot play this <b>video</b></p></video><p>outro</p>'),
+    ('<p>k</p><audio src="a.ogg"><div>old fallback</div></audio><p>z</p>', '<p>k</p><audio src="b.ogg"><div>new fallback</div></audio><p>z</p>'),
+    ('<p>one <img alt="placeholder"> two <img data-original="x.png"></p>', '<p>one <img alt="placeholder"> two <img data-original="x.png"></p>'),
     ('<p>Area 10\u00b2 m and CO\u2082 levels</p>', '<p>Area 102 m and CO2 levels</p>'),
     ('<ul><li>\ufb01le \uff21\uff22\uff23</li><li>5\u00b5g dose</li></ul>', '<ul><li>file ABC</li><li>5\u03bcg dose</li></ul>'),
     ('<p>caf\u00e9 stra\u00dfe Data</p>', '<p>cafe\u0301 strasse data</p>'),
